@@ -19,7 +19,9 @@ import (
 	sdk "github.com/cosmos/cosmos-sdk/types"
 	banktypes "github.com/cosmos/cosmos-sdk/x/bank/types"
 	ammtypes "github.com/elys-network/elys/x/amm/types"
+	burnertypes "github.com/elys-network/elys/x/burner/types"
 	ctypes "github.com/elys-network/elys/x/commitment/types"
+	epochstypes "github.com/elys-network/elys/x/epochs/types"
 	lptypes "github.com/elys-network/elys/x/leveragelp/types"
 	mctypes "github.com/elys-network/elys/x/masterchef/types"
 	oracletypes "github.com/elys-network/elys/x/oracle/types"
@@ -137,7 +139,7 @@ func (h *Hist) genTx() *histTx {
 	}{
 		{"amm.join", 10}, {"amm.exit", 8}, {"amm.swapIn", 10}, {"amm.swapOut", 6}, {"amm.swapByDenom", 3},
 		{"ss.bond", 5}, {"ss.unbond", 5},
-		{"cm.commitClaimed", 3}, {"cm.uncommit", 3}, {"cm.vest", 3}, {"cm.cancelVest", 2}, {"cm.claimVesting", 3}, {"cm.vestLiquid", 1},
+		{"cm.commitClaimed", 3}, {"cm.uncommit", 3}, {"cm.vest", 3}, {"cm.cancelVest", 2}, {"cm.claimVesting", 3}, {"cm.vestLiquid", 1}, {"stake.delegate", 2}, {"stake.undelegate", 2}, {"cm.unstakeOther", 1}, {"bank.toZero", 1},
 		{"lp.open", 8}, {"lp.close", 6}, {"lp.closePositions", 4}, {"lp.claim", 1},
 		{"perp.open", 8}, {"perp.close", 6}, {"perp.closePositions", 4},
 		{"mc.claim", 3}, {"mc.externalIncentive", 1},
@@ -351,6 +353,71 @@ func (h *Hist) genTx() *histTx {
 			tx.req.Msgs = []sdk.Msg{&ctypes.MsgCancelVest{Creator: u.Addr.String(), Amount: a, Denom: d}}
 		}
 		tx.f = J{"denom": d, "amt": a.String()}
+	case "stake.delegate", "stake.undelegate":
+		// ELYS staking through the commitment module's MsgStake / MsgUnstake (the estaking end-blocker then adjusts EdenB)
+		vals, err := app.StakingKeeper.GetAllValidators(ctx)
+		if err != nil || len(vals) == 0 {
+			return nil
+		}
+		val := vals[0].OperatorAddress
+		if kind == "stake.delegate" {
+			a := h.amt(1_000_000, 50_000_000_000)
+			tx.req.Msgs = []sdk.Msg{&ctypes.MsgStake{Creator: u.Addr.String(), Amount: a, Asset: "uelys", ValidatorAddress: val}}
+			tx.f = J{"amt": a.String()}
+		} else {
+			valAddr, _ := sdk.ValAddressFromBech32(val)
+			del, err := app.StakingKeeper.GetDelegation(ctx, u.Addr, valAddr)
+			if err != nil {
+				return nil
+			}
+			have := vals[0].TokensFromShares(del.Shares).TruncateInt()
+			a := have.Mul(h.amt(1, 1_000_000)).Quo(math.NewInt(1_000_000))
+			if r.Intn(5) == 0 {
+				a = have
+			}
+			if !a.IsPositive() {
+				a = math.OneInt()
+			}
+			tx.req.Msgs = []sdk.Msg{&ctypes.MsgUnstake{Creator: u.Addr.String(), Amount: a, Asset: "uelys", ValidatorAddress: val}}
+			tx.f = J{"amt": a.String()}
+		}
+	case "cm.unstakeOther":
+		// MsgUnstake in its "other asset" variant with an asset it must refuse: committed pool or vault shares
+		c := app.CommitmentKeeper.GetCommitments(ctx, u.Addr)
+		var cands []sdk.Coin
+		for _, ct := range c.CommittedTokens {
+			if strings.HasPrefix(ct.Denom, "amm/pool/") || ct.Denom == "stablestake/share" {
+				cands = append(cands, sdk.NewCoin(ct.Denom, ct.Amount))
+			}
+		}
+		if len(cands) == 0 {
+			return nil
+		}
+		cc := cands[r.Intn(len(cands))]
+		a := cc.Amount.Mul(h.amt(1, 1_000_000)).Quo(math.NewInt(1_000_000))
+		if !a.IsPositive() {
+			a = math.OneInt()
+		}
+		tx.req.Msgs = []sdk.Msg{&ctypes.MsgUnstake{Creator: u.Addr.String(), Amount: a, Asset: cc.Denom}}
+		tx.f = J{"denom": cc.Denom, "amt": a.String()}
+	case "bank.toZero":
+		// anything liquid in the wallet (shares, if there ever are any) sent to the burner's zero address
+		bals := app.BankKeeper.GetAllBalances(ctx, u.Addr)
+		if len(bals) == 0 {
+			return nil
+		}
+		cc := bals[r.Intn(len(bals))]
+		for _, b := range bals {
+			if strings.HasPrefix(b.Denom, "amm/pool/") || b.Denom == "stablestake/share" {
+				cc = b // prefer share tokens
+			}
+		}
+		a := math.MinInt(cc.Amount, h.amt(1, 1_000_000_000))
+		if strings.HasPrefix(cc.Denom, "amm/pool/") || cc.Denom == "stablestake/share" {
+			a = cc.Amount
+		}
+		tx.req.Msgs = []sdk.Msg{banktypes.NewMsgSend(u.Addr, burnertypes.GetZeroAddress(), sdk.NewCoins(sdk.NewCoin(cc.Denom, a)))}
+		tx.f = J{"coin": []string{cc.Denom, a.String()}}
 	case "cm.claimVesting":
 		tx.req.Msgs = []sdk.Msg{&ctypes.MsgClaimVesting{Sender: u.Addr.String()}}
 	case "cm.vestLiquid":
@@ -1067,6 +1134,12 @@ func histWorld(t *testing.T, hseed int64, wv histWorldVariant) (*World, *Std) {
 			w.Fund(ctx, w.Accts[4].Addr, sdk.NewCoins(sdk.NewCoin(wv.DumpDenom, math.NewIntWithDecimal(1, 30))))
 		})
 	}
+	// the burner runs every five minutes (governance-configured epoch; the default genesis names none)
+	w.Seed(func(ctx sdk.Context) {
+		bp := w.App.BurnerKeeper.GetParams(ctx)
+		bp.EpochIdentifier = epochstypes.FiveMinutesEpochID
+		w.App.BurnerKeeper.SetParams(ctx, &bp)
+	})
 	// seed some claimed Eden / EdenB so commitment ops have something to work with
 	w.Seed(func(ctx sdk.Context) {
 		for _, a := range w.Accts[:4] {
